@@ -187,7 +187,7 @@ impl<'a, F: Family> Cx<'a, F> {
         }
         let what = op.text();
         let zst_h = F::H::ZST && F::H::TRACKED;
-        let faulty = reg(|r| r.fault.is_some());
+        let faulty = reg(|r| !r.faults.is_empty());
         match op.code {
             OpCode::HsIter | OpCode::FatIter | OpCode::ThinIter | OpCode::SlIter | OpCode::UniSlIter => {
                 let with_header = !matches!(op.code, OpCode::SlIter | OpCode::UniSlIter);
@@ -664,7 +664,7 @@ impl<'a, F: Family> Cx<'a, F> {
             OpCode::IntoRaw => matches!(k, Kind::ArcP | Kind::Sl | Kind::DynP | Kind::Thin),
             OpCode::FromRaw => matches!(k, Kind::RawP | Kind::RawSl | Kind::RawDyn | Kind::RawThin),
             OpCode::FromRawAsDyn => k == Kind::RawP,
-            OpCode::UnsizeDyn => k == Kind::ArcP && cfg!(feature = "cfg_a"),
+            OpCode::UnsizeDyn => matches!(k, Kind::ArcP | Kind::UniP) && cfg!(feature = "cfg_a"),
             OpCode::ToUnion => matches!(k, Kind::ArcP | Kind::ArcQ),
             OpCode::ToUnionCross => k == Kind::ArcP,
             OpCode::Erase => matches!(k, Kind::ArcP | Kind::Sl),
@@ -673,7 +673,7 @@ impl<'a, F: Family> Cx<'a, F> {
             OpCode::FromThin => k == Kind::Thin,
             OpCode::ProtFromThin => k == Kind::Thin,
             OpCode::ProtIntoThin => k == Kind::Prot,
-            OpCode::Shareable => matches!(k, Kind::UniP | Kind::UniHs | Kind::UniSl | Kind::UniMuP | Kind::UniSlMu | Kind::UniFat),
+            OpCode::Shareable => matches!(k, Kind::UniP | Kind::UniHs | Kind::UniSl | Kind::UniMuP | Kind::UniSlMu | Kind::UniFat | Kind::UniDynP),
             OpCode::SwapWrap => matches!(k, Kind::ArcP | Kind::Thin) && cfg!(feature = "cfg_a"),
             OpCode::SwapUnwrap => matches!(k, Kind::SwapP | Kind::SwapThin),
             OpCode::RefCntTrip => matches!(k, Kind::ArcP | Kind::Thin) && cfg!(feature = "cfg_a"),
@@ -751,6 +751,12 @@ impl<'a, F: Family> Cx<'a, F> {
             (OpCode::ProtFromThin, Handle::Thin(x)) => Handle::Prot(Arc::protected_from_thin(x)),
             (OpCode::ProtIntoThin, Handle::Prot(x)) => Handle::Thin(Arc::protected_into_thin(x)),
             (OpCode::Shareable, Handle::UniP(x)) => Handle::ArcP(x.shareable()),
+            (OpCode::Shareable, Handle::UniDynP(x)) => Handle::DynP(x.shareable()),
+            #[cfg(feature = "cfg_a")]
+            (OpCode::UnsizeDyn, Handle::UniP(x)) => {
+                use unsize::CoerceUnsize;
+                Handle::UniDynP(x.unsize(unsize::Coercion!(to dyn Probe)))
+            }
             (OpCode::Shareable, Handle::UniHs(x)) => Handle::Hs(x.shareable()),
             (OpCode::Shareable, Handle::UniSl(x)) => Handle::Sl(x.shareable()),
             (OpCode::Shareable, Handle::UniMuP(x)) => Handle::MuP(x.shareable()),
@@ -781,6 +787,38 @@ impl<'a, F: Family> Cx<'a, F> {
         });
         self.put(g, Slot { h: nh, ai });
         Done(exp)
+    }
+
+    /// arc-swap: exchange the Arc held in the cell (slot a) with the Arc in slot b.
+    #[cfg(feature = "cfg_a")]
+    fn o_swap_exchange(&mut self, op: &Op) -> Outcome {
+        let (a, b) = (op.a, op.b);
+        if self.par || !self.has(a) || !self.has(b) || a == b {
+            return Skipped;
+        }
+        match (self.kind(a), self.kind(b)) {
+            (Some(Kind::SwapP), Some(Kind::ArcP)) | (Some(Kind::SwapThin), Some(Kind::Thin)) => {}
+            _ => return Skipped,
+        }
+        let (ai, bi) = (self.ai(a), self.ai(b));
+        let Slot { h: hb, .. } = self.take(b);
+        let old: Handle<F> = {
+            let sa = self.slot(a);
+            match (&sa.h, hb) {
+                (Handle::SwapP(cell), Handle::ArcP(x)) => untracked(|| Handle::ArcP(if op.c % 2 == 0 { cell.swap(x) } else { let o = cell.load_full(); cell.store(x); o })),
+                (Handle::SwapThin(cell), Handle::Thin(x)) => untracked(|| Handle::Thin(cell.swap(x))),
+                _ => unreachable!(),
+            }
+        };
+        self.slot(a).ai = bi;
+        self.put(b, Slot { h: old, ai });
+        // ownership moved both ways; arc-swap may add and remove transient counts (net zero),
+        // except that the load_full+store variant clones the old value and drops the stored one
+        Done(Exp::default())
+    }
+    #[cfg(not(feature = "cfg_a"))]
+    fn o_swap_exchange(&mut self, _op: &Op) -> Outcome {
+        Skipped
     }
 
     fn o_move(&mut self, op: &Op) -> Outcome {
@@ -1050,7 +1088,7 @@ impl<'a, F: Family> Cx<'a, F> {
                 Kind::UnionP | Kind::UnionQ => P_LAST_OWNER_UNION,
                 Kind::RawP | Kind::RawDyn | Kind::RawSl | Kind::RawThin => P_LAST_OWNER_RAW,
                 Kind::DynP => P_LAST_OWNER_DYN,
-                Kind::UniP | Kind::UniHs | Kind::UniSl | Kind::UniHsMu | Kind::UniSlMu | Kind::UniMuP | Kind::UniFat | Kind::UniFatMu => P_LAST_OWNER_UNIQUE,
+                Kind::UniP | Kind::UniHs | Kind::UniSl | Kind::UniHsMu | Kind::UniSlMu | Kind::UniMuP | Kind::UniFat | Kind::UniFatMu | Kind::UniDynP => P_LAST_OWNER_UNIQUE,
                 Kind::SwapP | Kind::SwapThin => P_LAST_OWNER_SWAP,
                 _ => P_OP_SKIPPED + 0,
             });
@@ -1151,6 +1189,7 @@ pub fn dispatch<F: Family>(cx: &mut Cx<'_, F>, op: &Op) -> Outcome {
         ToOffset | FromOffset | IntoRaw | FromRaw | FromRawAsDyn | UnsizeDyn | ToUnion | ToUnionCross | Erase | Unerase | IntoThin | FromThin
         | ProtFromThin | ProtIntoThin | Shareable | SwapWrap | SwapUnwrap | RefCntTrip => cx.o_convert(op),
         MoveSlot => cx.o_move(op),
+        SwapExchange => cx.o_swap_exchange(op),
         Read | Counts | CmpEq | CmpOrd | HashOp | FmtOp | PtrEq | WithArcNoop => cx.o_inspect(op),
         GetMut | GetUnique | IsUnique | TryUnique | TryUnwrap | TryFromUni | MakeMut | MakeUnique | UnwrapOrClone | IntoInner
         | DepWrite | DepAsMutSlice | ThinMutGetMut | ThinMutReplace | ThinMutNoop | UniWrite => crate::exec_uniq::uniq(cx, op),
